@@ -292,6 +292,16 @@ def _shape_calls(f, arg):
     if f == "where":
         m = np.array([[True, False, True], [False, True, False]])
         return (2, 3), {"mg": lambda x: mg.where(m, x, x * 2.0), "np": lambda x: np.where(m, x, x * 2.0)}
+    if f in ("atleast_1d", "atleast_2d", "atleast_3d"):
+        sh = {"from0d": (), "from1d": (3,), "from2d": (2, 3)}[arg]
+        return sh, {"mg": lambda x: getattr(mg, f)(x), "np": lambda x: getattr(np, f)(x)}
+    if f in ("zeros_like", "ones_like", "full_like"):
+        extra = (2.5,) if f == "full_like" else ()
+        return (2, 3), {"mg": lambda x: getattr(mg, f)(x, *extra), "np": lambda x: getattr(np, f)(x, *extra)}
+    if f == "norm":
+        sh, kw = {"vec2": ((3,), {}), "vec1": ((3,), {"ord": 1}), "axis0": ((2, 3), {"axis": 0}),
+                  "axism1_keepdims": ((2, 3), {"axis": -1, "keepdims": True})}[arg]
+        return sh, {"mg": lambda x: mg.linalg.norm(x, **kw), "np": lambda x: np.linalg.norm(x, **kw)}
     if f == "einsum":
         if arg == "matvec":
             return (3, 3), {"mg": lambda x: mg.einsum("ij,j->i", x, x[0]), "np": lambda x: np.einsum("ij,j->i", x, x[0])}
@@ -360,8 +370,36 @@ def run_nondiff(cell):
     return None
 
 
+def run_nondiff1(cell):
+    """Non-differentiable NumPy functions of one tensor: the result is never a Tensor and equals NumPy's on the raw array."""
+    f = cell["f"]
+    npf = getattr(np, f)
+    base = np.array([1, 0, 2, 2]) if f == "bincount" else arr((3,), "any")
+    x = operand(cell["operands"][0], base)
+    if f == "bincount":
+        x = mg.tensor(base)                      # integer tensor (always constant)
+    rw = raw(x)
+    args = (2.5,) if f == "full_like" else ()
+    with warnings.catch_warnings():
+        warnings.simplefilter("ignore")
+        r = npf(x, *args)
+        expect = npf(rw, *args)
+    if isinstance(r, mg.Tensor):
+        return ("kind(np)", "ndarray", "Tensor")
+    if f == "min_scalar_type":
+        return None if r == expect else ("value", str(expect), str(r))
+    if f == "empty_like":
+        ok = np.shape(r) == np.shape(expect) and np.asarray(r).dtype == np.asarray(expect).dtype
+        return None if ok else ("shape/dtype", (np.shape(expect), str(np.asarray(expect).dtype)), (np.shape(r), str(np.asarray(r).dtype)))
+    if not np.array_equal(np.asarray(r), np.asarray(expect)) or np.asarray(r).dtype != np.asarray(expect).dtype:
+        return ("value", np.asarray(expect).tolist(), np.asarray(r).tolist())
+    return None
+
+
 def run_cell(cell):
     g = cell["group"]
+    if g == "nodiff1":
+        return run_nondiff1(cell)
     if g in ("binary", "matmul"):
         return run_binary(cell)
     if g == "unary":
